@@ -342,12 +342,12 @@ def run_layout(record, li):
             s.count("probes")
             tables = measure(s, actor.ix, record)
             check_layout(s, record, tables, li)
-            st = dict(s.stats)
+            st = s.full_stats()
             st["events"] = s.k.seq
             st["sim_seconds"] = (s.k.now_us - 1_700_000_000_000_000) / 1e6
             return None, st, s.k.event_digest(), tables, dict(s.known_hits)
         except Violation as v:
-            return v, dict(s.stats), s.k.event_digest(), None, dict(s.known_hits)
+            return v, s.full_stats(), s.k.event_digest(), None, dict(s.known_hits)
     finally:
         s.close()
 
